@@ -70,10 +70,13 @@ COMBOS_FULL = [(s, "none") for s in ALL_SHAPES] + [("plain", t) for t in TOPS_PL
               [("tmpl", "qq"), ("ptmpl", "nested"), ("arg_qq", "ident"), ("raise", "splice")]
 COMBOS_CORE = [("plain", "none"), ("raise", "none"), ("name", "none"), ("arg_qq", "none"), ("tmpl_deep", "none"),
                ("ptmpl", "none"), ("plain", "nested")]
+COMBOS_CORE5 = [("plain", "none"), ("raise", "none"), ("arg_qq", "none"), ("ptmpl", "none"), ("plain", "nested")]
+COMBOS_CTX = [("plain", "none"), ("tmpl_deep", "none")]
 
+# n_full: all combinations; n_core: larger terms with the core combinations; ctx: context depths around the bare leaf
 BOUNDS = {
-    "quick": dict(n_full=3, n_core=4, ctx=[], shards=64),
-    "thorough": dict(n_full=4, n_core=5, ctx=[3], shards=1024),
+    "quick": dict(n_full=3, n_core=4, core=COMBOS_CORE, ctx=[], shards=64),
+    "thorough": dict(n_full=4, n_core=5, core=COMBOS_CORE5, ctx=[3], shards=1024),
 }
 TIME_CAP = {"quick": 900, "thorough": 5400}
 
@@ -86,7 +89,8 @@ def bounds(tier):
             "leaves": [l[1] for l in lang.LEAVES], "wrappers": ["mod_r", "fn_ret"],
             "leaf_shapes": {k: v[0] for k, v in R.SHAPES.items()} | {"ptmpl": "(t-parent <siblings>)  ; one-off macro, template = parent form with the leaf"},
             "macros": R.MACROS, "whole_term_wrappers": R.TOP_ORDER,
-            "combos_all": [list(c) for c in COMBOS_FULL], "combos_core": [list(c) for c in COMBOS_CORE]}
+            "combos_all": [list(c) for c in COMBOS_FULL], "combos_core": [list(c) for c in b["core"]],
+            "combos_contexts": [list(c) for c in COMBOS_CTX] if b["ctx"] else []}
 
 
 _CTX = {}
@@ -423,7 +427,7 @@ def _combos(tier, n):
     b = BOUNDS[tier]
     if n <= b["n_full"]:
         return COMBOS_FULL
-    return COMBOS_CORE
+    return b["core"]
 
 
 def run_shard(shard, tier):
@@ -445,7 +449,7 @@ def run_shard(shard, tier):
         for idx in range(lo, hi):
             t = R.plug(ctxs[idx], ("boom",))
             acc.count("ctx-depth:" + str(n))
-            for j, (shape, top) in enumerate(COMBOS_CORE):
+            for j, (shape, top) in enumerate(COMBOS_CTX):
                 check_case(acc, t, w_fn, shape, top, record_sample=(idx % 9973 == 5 and j == 0))
     return acc.result()
 
@@ -473,13 +477,16 @@ def snippet(d):
             "    def __exit__(s, *a): return s.sup\n"
             "class O: pass\n"
             "o = O(); o.boom = boom\n"
+            f"macros = {c.get('macros', [])!r}   # user macros, defined in the module before the program is compiled\n"
             f"text = {c['text']!r}\n"
             "m = types.ModuleType('case')\n"
-            "m.__dict__.update(log=lambda i, v: v, boom=boom, f2=lambda i, a, b: b, cm=cm, o=o, Marker=Marker)\n"
+            "m.__dict__.update(log=lambda i, v: v, boom=boom, f2=lambda i, a, b: b, cm=cm, o=o, Marker=Marker, hy=hy)\n"
+            "for d in macros: hy.eval(hy.read(d), m.__dict__, module=m)\n"
             "fn = '<c17>'\n"
             "code = compile(hy_compile(hy.read_many(text, filename=fn), m, filename=fn, source=text), fn, 'exec')\n"
             "try:\n    exec(code, m.__dict__)\n"
             "except Exception as e:\n"
-            "    print(type(e).__name__, [f.lineno for f in traceback.extract_tb(e.__traceback__) if f.filename == fn])\n"
+            "    print(type(e).__name__, 'module lines of the traceback, outermost first:',\n"
+            "          [f.lineno for f in traceback.extract_tb(e.__traceback__) if f.filename == fn])\n"
             "for i, l in enumerate(text.splitlines(), 1): print(i, l)\n"
             f"# C17: {d['detail'][:400]!r}\n")
